@@ -1,5 +1,5 @@
 // auto-generated: "lalrpop 0.23.1"
-// sha3: 3b6aa48bf7b83089bac0291704d32470997f4f1008eb9ca9e2b2d6a87b76b158
+// sha3: b0c8835227d2c507599657000970674797dd349e44244d9aaa91f23dd4ef123f
 use crate::rt::*;
 #[allow(unused_extern_crates)]
 extern crate lalrpop_util as __lalrpop_util;
@@ -10,7 +10,7 @@ extern crate alloc;
 
 #[rustfmt::skip]
 #[allow(explicit_outlives_requirements, non_snake_case, non_camel_case_types, unused_mut, unused_variables, unused_imports, unused_parens, clippy::needless_lifetimes, clippy::type_complexity, clippy::needless_return, clippy::too_many_arguments, clippy::match_single_binding, clippy::clone_on_copy, clippy::unit_arg)]
-mod __parse__P {
+mod __parse__E {
 
     use crate::rt::*;
     #[allow(unused_extern_crates)]
@@ -29,58 +29,46 @@ mod __parse__P {
     }
     const __ACTION: &[i8] = &[
         // State 0
-        -6, 0, 0, -6, 0, -6, 0, 0, 0,
+        0, 0, 3, 0, 10, 0,
         // State 1
-        12, 0, 0, 3, 0, 13, 0, 0, 0,
+        0, 0, 0, 0, 10, 0,
         // State 2
-        -6, 0, 0, -6, -6, -6, 0, 0, 0,
+        0, 0, 3, 0, 10, 0,
         // State 3
-        15, 0, 0, 0, 0, 0, 0, 7, 0,
+        0, 0, 3, 0, 10, 0,
         // State 4
-        15, 0, 0, 0, 0, 0, 0, 7, 0,
+        0, 0, 3, 0, 10, 0,
         // State 5
-        12, 0, 0, 3, 17, 13, 0, 0, 0,
+        0, 0, 3, 0, 10, 0,
         // State 6
-        15, 0, 0, 0, 0, 0, 0, 7, 0,
+        4, 0, 0, 0, 0, 0,
         // State 7
-        12, 0, 0, 3, 0, 13, 0, 0, 0,
+        -10, -10, 0, -10, 0, 0,
         // State 8
-        12, 0, 0, 3, 0, 13, 0, 0, 0,
+        -6, 5, 0, -6, 0, 0,
         // State 9
-        0, 0, 0, 0, 0, 0, 0, 0, 0,
+        -3, -3, -3, -3, -3, 13,
         // State 10
-        -7, 0, 0, -7, -7, -7, 0, 0, 0,
+        -7, -7, -7, -7, -7, 0,
         // State 11
-        0, 4, 0, 0, 0, 0, 0, 0, 0,
+        4, 0, 0, 15, 0, 0,
         // State 12
-        0, 0, 0, 0, 0, 0, 0, 5, 0,
+        -4, -4, -4, -4, -4, 0,
         // State 13
-        0, 0, 18, 0, 0, 0, 0, 0, 0,
+        -5, 5, 0, -5, 0, 0,
         // State 14
-        0, 0, -3, 0, 0, 0, 0, 0, -3,
+        -8, -8, -8, -8, -8, 0,
         // State 15
-        0, 0, 0, 0, 0, 0, 0, 0, 8,
-        // State 16
-        -9, 0, 0, -9, -9, -9, -9, 0, 0,
-        // State 17
-        -8, 0, 0, -8, -8, -8, -8, 0, 0,
-        // State 18
-        0, 0, 0, 0, 0, 0, 0, 0, 20,
-        // State 19
-        0, 0, -4, 0, 0, 0, 0, 0, -4,
-        // State 20
-        0, 0, 0, 0, 0, 0, 9, 0, 0,
-        // State 21
-        -10, 0, 0, -10, -10, -10, -10, 0, 0,
+        -9, -9, 0, -9, 0, 0,
     ];
     fn __action(state: i8, integer: usize) -> i8 {
-        __ACTION[(state as usize) * 9 + integer]
+        __ACTION[(state as usize) * 6 + integer]
     }
     const __EOF_ACTION: &[i8] = &[
         // State 0
-        -6,
+        0,
         // State 1
-        -5,
+        0,
         // State 2
         0,
         // State 3
@@ -90,69 +78,56 @@ mod __parse__P {
         // State 5
         0,
         // State 6
-        0,
-        // State 7
-        0,
-        // State 8
-        0,
-        // State 9
         -11,
+        // State 7
+        -10,
+        // State 8
+        -6,
+        // State 9
+        -3,
         // State 10
         -7,
         // State 11
         0,
         // State 12
-        0,
+        -4,
         // State 13
-        0,
+        -5,
         // State 14
-        0,
-        // State 15
-        0,
-        // State 16
-        -9,
-        // State 17
         -8,
-        // State 18
-        0,
-        // State 19
-        0,
-        // State 20
-        0,
-        // State 21
-        -10,
+        // State 15
+        -9,
     ];
     fn __goto(state: i8, nt: usize) -> i8 {
         match nt {
             2 => match state {
-                4 => 15,
-                6 => 18,
-                _ => 13,
-            },
-            3 => 9,
-            4 => match state {
-                2 => 5,
+                1 => 10,
                 _ => 1,
             },
+            3 => match state {
+                2 => 11,
+                _ => 6,
+            },
+            4 => match state {
+                4 => 5,
+                5 => 15,
+                _ => 7,
+            },
             5 => match state {
-                7 => 20,
-                8 => 21,
-                _ => 10,
+                3 => 13,
+                _ => 8,
             },
             _ => 0,
         }
     }
     #[allow(clippy::needless_raw_string_hashes)]
     const __TERMINAL: &[&str] = &[
-        r###""id""###,
-        r###""=""###,
-        r###"";""###,
-        r###""{""###,
-        r###""}""###,
-        r###""if""###,
-        r###""else""###,
+        r###""+""###,
+        r###""*""###,
         r###""(""###,
         r###"")""###,
+        r###""x""###,
+        r###""q""###,
     ];
     fn __expected_tokens(__state: i8) -> alloc::vec::Vec<alloc::string::String> {
         __TERMINAL.iter().enumerate().filter_map(|(index, terminal)| {
@@ -219,7 +194,7 @@ mod __parse__P {
 
         #[inline]
         fn error_action(&self, state: i8) -> i8 {
-            __action(state, 9 - 1)
+            __action(state, 6 - 1)
         }
 
         #[inline]
@@ -291,9 +266,6 @@ mod __parse__P {
             Tok('d', _, _, _) if true => Some(3),
             Tok('e', _, _, _) if true => Some(4),
             Tok('f', _, _, _) if true => Some(5),
-            Tok('g', _, _, _) if true => Some(6),
-            Tok('h', _, _, _) if true => Some(7),
-            Tok('i', _, _, _) if true => Some(8),
             _ => None,
         }
     }
@@ -305,7 +277,7 @@ mod __parse__P {
     ) -> __Symbol<>
     {
         #[allow(clippy::manual_range_patterns)]match __token_index {
-            0 | 1 | 2 | 3 | 4 | 5 | 6 | 7 | 8 => __Symbol::Variant0(__token),
+            0 | 1 | 2 | 3 | 4 | 5 => __Symbol::Variant0(__token),
             _ => unreachable!(),
         }
     }
@@ -336,20 +308,20 @@ mod __parse__P {
             }
             3 => {
                 __state_machine::SimulatedReduce::Reduce {
-                    states_to_pop: 3,
+                    states_to_pop: 2,
                     nonterminal_produced: 2,
                 }
             }
             4 => {
                 __state_machine::SimulatedReduce::Reduce {
-                    states_to_pop: 1,
+                    states_to_pop: 3,
                     nonterminal_produced: 3,
                 }
             }
             5 => {
                 __state_machine::SimulatedReduce::Reduce {
-                    states_to_pop: 0,
-                    nonterminal_produced: 4,
+                    states_to_pop: 1,
+                    nonterminal_produced: 3,
                 }
             }
             6 => {
@@ -360,19 +332,19 @@ mod __parse__P {
             }
             7 => {
                 __state_machine::SimulatedReduce::Reduce {
-                    states_to_pop: 4,
-                    nonterminal_produced: 5,
+                    states_to_pop: 3,
+                    nonterminal_produced: 4,
                 }
             }
             8 => {
                 __state_machine::SimulatedReduce::Reduce {
-                    states_to_pop: 3,
+                    states_to_pop: 4,
                     nonterminal_produced: 5,
                 }
             }
             9 => {
                 __state_machine::SimulatedReduce::Reduce {
-                    states_to_pop: 7,
+                    states_to_pop: 1,
                     nonterminal_produced: 5,
                 }
             }
@@ -380,14 +352,14 @@ mod __parse__P {
             _ => panic!("invalid reduction index {__reduce_index}")
         }
     }
-    pub struct PParser {
+    pub struct EParser {
         _priv: (),
     }
 
-    impl Default for PParser { fn default() -> Self { Self::new() } }
-    impl PParser {
-        pub fn new() -> PParser {
-            PParser {
+    impl Default for EParser { fn default() -> Self { Self::new() } }
+    impl EParser {
+        pub fn new() -> EParser {
+            EParser {
                 _priv: (),
             }
         }
@@ -484,7 +456,7 @@ mod __parse__P {
                 __reduce9(__lookahead_start, __symbols, core::marker::PhantomData::<()>)
             }
             10 => {
-                // __P = P => ActionFn(0);
+                // __E = E => ActionFn(0);
                 let __sym0 = __pop_Variant2(__symbols);
                 let __start = __sym0.0.clone();
                 let __end = __sym0.2.clone();
@@ -569,7 +541,7 @@ mod __parse__P {
         _: core::marker::PhantomData<()>,
     ) -> (usize, usize)
     {
-        // Ex = "id" => ActionFn(19);
+        // A = "x" => ActionFn(19);
         let __sym0 = __pop_Variant0(__symbols);
         let __start = __sym0.0.clone();
         let __end = __sym0.2.clone();
@@ -584,16 +556,15 @@ mod __parse__P {
         _: core::marker::PhantomData<()>,
     ) -> (usize, usize)
     {
-        // Ex = "(", Ex, ")" => ActionFn(20);
-        assert!(__symbols.len() >= 3);
-        let __sym2 = __pop_Variant0(__symbols);
-        let __sym1 = __pop_Variant2(__symbols);
+        // A = "x", "q" => ActionFn(20);
+        assert!(__symbols.len() >= 2);
+        let __sym1 = __pop_Variant0(__symbols);
         let __sym0 = __pop_Variant0(__symbols);
         let __start = __sym0.0.clone();
-        let __end = __sym2.2.clone();
-        let __nt = super::__action20::<>(__sym0, __sym1, __sym2);
+        let __end = __sym1.2.clone();
+        let __nt = super::__action20::<>(__sym0, __sym1);
         __symbols.push((__start, __Symbol::Variant2(__nt), __end));
-        (3, 2)
+        (2, 2)
     }
     fn __reduce4<
     >(
@@ -602,13 +573,16 @@ mod __parse__P {
         _: core::marker::PhantomData<()>,
     ) -> (usize, usize)
     {
-        // P = Ss => ActionFn(21);
+        // E = E, "+", T => ActionFn(21);
+        assert!(__symbols.len() >= 3);
+        let __sym2 = __pop_Variant2(__symbols);
+        let __sym1 = __pop_Variant0(__symbols);
         let __sym0 = __pop_Variant2(__symbols);
         let __start = __sym0.0.clone();
-        let __end = __sym0.2.clone();
-        let __nt = super::__action21::<>(__sym0);
+        let __end = __sym2.2.clone();
+        let __nt = super::__action21::<>(__sym0, __sym1, __sym2);
         __symbols.push((__start, __Symbol::Variant2(__nt), __end));
-        (1, 3)
+        (3, 3)
     }
     fn __reduce5<
     >(
@@ -617,12 +591,13 @@ mod __parse__P {
         _: core::marker::PhantomData<()>,
     ) -> (usize, usize)
     {
-        // Ss =  => ActionFn(22);
-        let __start = __lookahead_start.cloned().or_else(|| __symbols.last().map(|s| s.2.clone())).unwrap_or_default();
-        let __end = __start.clone();
-        let __nt = super::__action22::<>(&__start, &__end);
+        // E = T => ActionFn(22);
+        let __sym0 = __pop_Variant2(__symbols);
+        let __start = __sym0.0.clone();
+        let __end = __sym0.2.clone();
+        let __nt = super::__action22::<>(__sym0);
         __symbols.push((__start, __Symbol::Variant2(__nt), __end));
-        (0, 4)
+        (1, 3)
     }
     fn __reduce6<
     >(
@@ -631,7 +606,7 @@ mod __parse__P {
         _: core::marker::PhantomData<()>,
     ) -> (usize, usize)
     {
-        // Ss = Ss, St => ActionFn(23);
+        // F = A, A => ActionFn(23);
         assert!(__symbols.len() >= 2);
         let __sym1 = __pop_Variant2(__symbols);
         let __sym0 = __pop_Variant2(__symbols);
@@ -648,17 +623,16 @@ mod __parse__P {
         _: core::marker::PhantomData<()>,
     ) -> (usize, usize)
     {
-        // St = "id", "=", Ex, ";" => ActionFn(24);
-        assert!(__symbols.len() >= 4);
-        let __sym3 = __pop_Variant0(__symbols);
-        let __sym2 = __pop_Variant2(__symbols);
-        let __sym1 = __pop_Variant0(__symbols);
+        // F = "(", E, ")" => ActionFn(24);
+        assert!(__symbols.len() >= 3);
+        let __sym2 = __pop_Variant0(__symbols);
+        let __sym1 = __pop_Variant2(__symbols);
         let __sym0 = __pop_Variant0(__symbols);
         let __start = __sym0.0.clone();
-        let __end = __sym3.2.clone();
-        let __nt = super::__action24::<>(__sym0, __sym1, __sym2, __sym3);
+        let __end = __sym2.2.clone();
+        let __nt = super::__action24::<>(__sym0, __sym1, __sym2);
         __symbols.push((__start, __Symbol::Variant2(__nt), __end));
-        (4, 5)
+        (3, 4)
     }
     fn __reduce8<
     >(
@@ -667,16 +641,17 @@ mod __parse__P {
         _: core::marker::PhantomData<()>,
     ) -> (usize, usize)
     {
-        // St = "{", Ss, "}" => ActionFn(25);
-        assert!(__symbols.len() >= 3);
-        let __sym2 = __pop_Variant0(__symbols);
-        let __sym1 = __pop_Variant2(__symbols);
-        let __sym0 = __pop_Variant0(__symbols);
+        // T = T, "*", F, F => ActionFn(25);
+        assert!(__symbols.len() >= 4);
+        let __sym3 = __pop_Variant2(__symbols);
+        let __sym2 = __pop_Variant2(__symbols);
+        let __sym1 = __pop_Variant0(__symbols);
+        let __sym0 = __pop_Variant2(__symbols);
         let __start = __sym0.0.clone();
-        let __end = __sym2.2.clone();
-        let __nt = super::__action25::<>(__sym0, __sym1, __sym2);
+        let __end = __sym3.2.clone();
+        let __nt = super::__action25::<>(__sym0, __sym1, __sym2, __sym3);
         __symbols.push((__start, __Symbol::Variant2(__nt), __end));
-        (3, 5)
+        (4, 5)
     }
     fn __reduce9<
     >(
@@ -685,24 +660,17 @@ mod __parse__P {
         _: core::marker::PhantomData<()>,
     ) -> (usize, usize)
     {
-        // St = "if", "(", Ex, ")", St, "else", St => ActionFn(26);
-        assert!(__symbols.len() >= 7);
-        let __sym6 = __pop_Variant2(__symbols);
-        let __sym5 = __pop_Variant0(__symbols);
-        let __sym4 = __pop_Variant2(__symbols);
-        let __sym3 = __pop_Variant0(__symbols);
-        let __sym2 = __pop_Variant2(__symbols);
-        let __sym1 = __pop_Variant0(__symbols);
-        let __sym0 = __pop_Variant0(__symbols);
+        // T = F => ActionFn(26);
+        let __sym0 = __pop_Variant2(__symbols);
         let __start = __sym0.0.clone();
-        let __end = __sym6.2.clone();
-        let __nt = super::__action26::<>(__sym0, __sym1, __sym2, __sym3, __sym4, __sym5, __sym6);
+        let __end = __sym0.2.clone();
+        let __nt = super::__action26::<>(__sym0);
         __symbols.push((__start, __Symbol::Variant2(__nt), __end));
-        (7, 5)
+        (1, 5)
     }
 }
 #[allow(unused_imports)]
-pub use self::__parse__P::PParser;
+pub use self::__parse__E::EParser;
 
 #[allow(clippy::too_many_arguments, clippy::needless_lifetimes, clippy::just_underscores_and_digits, clippy::extra_unused_type_parameters)]
 fn __action0<
@@ -718,20 +686,23 @@ fn __action1<
 >(
     (_, l, _): (i64, i64, i64),
     (_, c0, _): (i64, Tree, i64),
+    (_, c1, _): (i64, Tok, i64),
+    (_, c2, _): (i64, Tree, i64),
     (_, r, _): (i64, i64, i64),
 ) -> Tree
 {
-    node("P#0", l, r, vec![Tree::from(c0)])
+    node("E#0", l, r, vec![Tree::from(c0), Tree::from(c1), Tree::from(c2)])
 }
 
 #[allow(clippy::too_many_arguments, clippy::needless_lifetimes, clippy::just_underscores_and_digits, clippy::extra_unused_type_parameters)]
 fn __action2<
 >(
     (_, l, _): (i64, i64, i64),
+    (_, c0, _): (i64, Tree, i64),
     (_, r, _): (i64, i64, i64),
 ) -> Tree
 {
-    node("Ss#0", l, r, vec![])
+    node("E#1", l, r, vec![Tree::from(c0)])
 }
 
 #[allow(clippy::too_many_arguments, clippy::needless_lifetimes, clippy::just_underscores_and_digits, clippy::extra_unused_type_parameters)]
@@ -739,29 +710,40 @@ fn __action3<
 >(
     (_, l, _): (i64, i64, i64),
     (_, c0, _): (i64, Tree, i64),
-    (_, c1, _): (i64, Tree, i64),
+    (_, c1, _): (i64, Tok, i64),
+    (_, c2, _): (i64, Tree, i64),
+    (_, c3, _): (i64, Tree, i64),
     (_, r, _): (i64, i64, i64),
 ) -> Tree
 {
-    node("Ss#1", l, r, vec![Tree::from(c0), Tree::from(c1)])
+    node("T#0", l, r, vec![Tree::from(c0), Tree::from(c1), Tree::from(c2), Tree::from(c3)])
 }
 
 #[allow(clippy::too_many_arguments, clippy::needless_lifetimes, clippy::just_underscores_and_digits, clippy::extra_unused_type_parameters)]
 fn __action4<
 >(
     (_, l, _): (i64, i64, i64),
-    (_, c0, _): (i64, Tok, i64),
-    (_, c1, _): (i64, Tok, i64),
-    (_, c2, _): (i64, Tree, i64),
-    (_, c3, _): (i64, Tok, i64),
+    (_, c0, _): (i64, Tree, i64),
     (_, r, _): (i64, i64, i64),
 ) -> Tree
 {
-    node("St#0", l, r, vec![Tree::from(c0), Tree::from(c1), Tree::from(c2), Tree::from(c3)])
+    node("T#1", l, r, vec![Tree::from(c0)])
 }
 
 #[allow(clippy::too_many_arguments, clippy::needless_lifetimes, clippy::just_underscores_and_digits, clippy::extra_unused_type_parameters)]
 fn __action5<
+>(
+    (_, l, _): (i64, i64, i64),
+    (_, c0, _): (i64, Tree, i64),
+    (_, c1, _): (i64, Tree, i64),
+    (_, r, _): (i64, i64, i64),
+) -> Tree
+{
+    node("F#0", l, r, vec![Tree::from(c0), Tree::from(c1)])
+}
+
+#[allow(clippy::too_many_arguments, clippy::needless_lifetimes, clippy::just_underscores_and_digits, clippy::extra_unused_type_parameters)]
+fn __action6<
 >(
     (_, l, _): (i64, i64, i64),
     (_, c0, _): (i64, Tok, i64),
@@ -770,24 +752,7 @@ fn __action5<
     (_, r, _): (i64, i64, i64),
 ) -> Tree
 {
-    node("St#1", l, r, vec![Tree::from(c0), Tree::from(c1), Tree::from(c2)])
-}
-
-#[allow(clippy::too_many_arguments, clippy::needless_lifetimes, clippy::just_underscores_and_digits, clippy::extra_unused_type_parameters)]
-fn __action6<
->(
-    (_, l, _): (i64, i64, i64),
-    (_, c0, _): (i64, Tok, i64),
-    (_, c1, _): (i64, Tok, i64),
-    (_, c2, _): (i64, Tree, i64),
-    (_, c3, _): (i64, Tok, i64),
-    (_, c4, _): (i64, Tree, i64),
-    (_, c5, _): (i64, Tok, i64),
-    (_, c6, _): (i64, Tree, i64),
-    (_, r, _): (i64, i64, i64),
-) -> Tree
-{
-    node("St#2", l, r, vec![Tree::from(c0), Tree::from(c1), Tree::from(c2), Tree::from(c3), Tree::from(c4), Tree::from(c5), Tree::from(c6)])
+    node("F#1", l, r, vec![Tree::from(c0), Tree::from(c1), Tree::from(c2)])
 }
 
 #[allow(clippy::too_many_arguments, clippy::needless_lifetimes, clippy::just_underscores_and_digits, clippy::extra_unused_type_parameters)]
@@ -798,7 +763,7 @@ fn __action7<
     (_, r, _): (i64, i64, i64),
 ) -> Tree
 {
-    node("Ex#0", l, r, vec![Tree::from(c0)])
+    node("A#0", l, r, vec![Tree::from(c0)])
 }
 
 #[allow(clippy::too_many_arguments, clippy::needless_lifetimes, clippy::just_underscores_and_digits, clippy::extra_unused_type_parameters)]
@@ -806,12 +771,11 @@ fn __action8<
 >(
     (_, l, _): (i64, i64, i64),
     (_, c0, _): (i64, Tok, i64),
-    (_, c1, _): (i64, Tree, i64),
-    (_, c2, _): (i64, Tok, i64),
+    (_, c1, _): (i64, Tok, i64),
     (_, r, _): (i64, i64, i64),
 ) -> Tree
 {
-    node("Ex#1", l, r, vec![Tree::from(c0), Tree::from(c1), Tree::from(c2)])
+    node("A#1", l, r, vec![Tree::from(c0), Tree::from(c1)])
 }
 
 #[allow(clippy::needless_lifetimes, clippy::clone_on_copy)]
@@ -861,9 +825,8 @@ fn __action11<
 fn __action12<
 >(
     __0: (i64, Tok, i64),
-    __1: (i64, Tree, i64),
-    __2: (i64, Tok, i64),
-    __3: (i64, i64, i64),
+    __1: (i64, Tok, i64),
+    __2: (i64, i64, i64),
 ) -> Tree
 {
     let __start0 = __0.0.clone();
@@ -878,7 +841,6 @@ fn __action12<
         __0,
         __1,
         __2,
-        __3,
     )
 }
 
@@ -887,7 +849,9 @@ fn __action12<
 fn __action13<
 >(
     __0: (i64, Tree, i64),
-    __1: (i64, i64, i64),
+    __1: (i64, Tok, i64),
+    __2: (i64, Tree, i64),
+    __3: (i64, i64, i64),
 ) -> Tree
 {
     let __start0 = __0.0.clone();
@@ -901,6 +865,8 @@ fn __action13<
         __temp0,
         __0,
         __1,
+        __2,
+        __3,
     )
 }
 
@@ -908,7 +874,8 @@ fn __action13<
     clippy::just_underscores_and_digits, clippy::clone_on_copy, clippy::unit_arg)]
 fn __action14<
 >(
-    __0: (i64, i64, i64),
+    __0: (i64, Tree, i64),
+    __1: (i64, i64, i64),
 ) -> Tree
 {
     let __start0 = __0.0.clone();
@@ -921,6 +888,7 @@ fn __action14<
     __action2(
         __temp0,
         __0,
+        __1,
     )
 }
 
@@ -940,7 +908,7 @@ fn __action15<
         &__end0,
     );
     let __temp0 = (__start0, __temp0, __end0);
-    __action3(
+    __action5(
         __temp0,
         __0,
         __1,
@@ -953,67 +921,9 @@ fn __action15<
 fn __action16<
 >(
     __0: (i64, Tok, i64),
-    __1: (i64, Tok, i64),
-    __2: (i64, Tree, i64),
-    __3: (i64, Tok, i64),
-    __4: (i64, i64, i64),
-) -> Tree
-{
-    let __start0 = __0.0.clone();
-    let __end0 = __0.0.clone();
-    let __temp0 = __action10(
-        &__start0,
-        &__end0,
-    );
-    let __temp0 = (__start0, __temp0, __end0);
-    __action4(
-        __temp0,
-        __0,
-        __1,
-        __2,
-        __3,
-        __4,
-    )
-}
-
-#[allow(clippy::too_many_arguments, clippy::needless_lifetimes,
-    clippy::just_underscores_and_digits, clippy::clone_on_copy, clippy::unit_arg)]
-fn __action17<
->(
-    __0: (i64, Tok, i64),
     __1: (i64, Tree, i64),
     __2: (i64, Tok, i64),
     __3: (i64, i64, i64),
-) -> Tree
-{
-    let __start0 = __0.0.clone();
-    let __end0 = __0.0.clone();
-    let __temp0 = __action10(
-        &__start0,
-        &__end0,
-    );
-    let __temp0 = (__start0, __temp0, __end0);
-    __action5(
-        __temp0,
-        __0,
-        __1,
-        __2,
-        __3,
-    )
-}
-
-#[allow(clippy::too_many_arguments, clippy::needless_lifetimes,
-    clippy::just_underscores_and_digits, clippy::clone_on_copy, clippy::unit_arg)]
-fn __action18<
->(
-    __0: (i64, Tok, i64),
-    __1: (i64, Tok, i64),
-    __2: (i64, Tree, i64),
-    __3: (i64, Tok, i64),
-    __4: (i64, Tree, i64),
-    __5: (i64, Tok, i64),
-    __6: (i64, Tree, i64),
-    __7: (i64, i64, i64),
 ) -> Tree
 {
     let __start0 = __0.0.clone();
@@ -1029,10 +939,56 @@ fn __action18<
         __1,
         __2,
         __3,
+    )
+}
+
+#[allow(clippy::too_many_arguments, clippy::needless_lifetimes,
+    clippy::just_underscores_and_digits, clippy::clone_on_copy, clippy::unit_arg)]
+fn __action17<
+>(
+    __0: (i64, Tree, i64),
+    __1: (i64, Tok, i64),
+    __2: (i64, Tree, i64),
+    __3: (i64, Tree, i64),
+    __4: (i64, i64, i64),
+) -> Tree
+{
+    let __start0 = __0.0.clone();
+    let __end0 = __0.0.clone();
+    let __temp0 = __action10(
+        &__start0,
+        &__end0,
+    );
+    let __temp0 = (__start0, __temp0, __end0);
+    __action3(
+        __temp0,
+        __0,
+        __1,
+        __2,
+        __3,
         __4,
-        __5,
-        __6,
-        __7,
+    )
+}
+
+#[allow(clippy::too_many_arguments, clippy::needless_lifetimes,
+    clippy::just_underscores_and_digits, clippy::clone_on_copy, clippy::unit_arg)]
+fn __action18<
+>(
+    __0: (i64, Tree, i64),
+    __1: (i64, i64, i64),
+) -> Tree
+{
+    let __start0 = __0.0.clone();
+    let __end0 = __0.0.clone();
+    let __temp0 = __action10(
+        &__start0,
+        &__end0,
+    );
+    let __temp0 = (__start0, __temp0, __end0);
+    __action4(
+        __temp0,
+        __0,
+        __1,
     )
 }
 
@@ -1061,8 +1017,30 @@ fn __action19<
 fn __action20<
 >(
     __0: (i64, Tok, i64),
-    __1: (i64, Tree, i64),
-    __2: (i64, Tok, i64),
+    __1: (i64, Tok, i64),
+) -> Tree
+{
+    let __start0 = __1.2.clone();
+    let __end0 = __1.2.clone();
+    let __temp0 = __action9(
+        &__start0,
+        &__end0,
+    );
+    let __temp0 = (__start0, __temp0, __end0);
+    __action12(
+        __0,
+        __1,
+        __temp0,
+    )
+}
+
+#[allow(clippy::too_many_arguments, clippy::needless_lifetimes,
+    clippy::just_underscores_and_digits, clippy::clone_on_copy, clippy::unit_arg)]
+fn __action21<
+>(
+    __0: (i64, Tree, i64),
+    __1: (i64, Tok, i64),
+    __2: (i64, Tree, i64),
 ) -> Tree
 {
     let __start0 = __2.2.clone();
@@ -1072,7 +1050,7 @@ fn __action20<
         &__end0,
     );
     let __temp0 = (__start0, __temp0, __end0);
-    __action12(
+    __action13(
         __0,
         __1,
         __2,
@@ -1082,7 +1060,7 @@ fn __action20<
 
 #[allow(clippy::too_many_arguments, clippy::needless_lifetimes,
     clippy::just_underscores_and_digits, clippy::clone_on_copy, clippy::unit_arg)]
-fn __action21<
+fn __action22<
 >(
     __0: (i64, Tree, i64),
 ) -> Tree
@@ -1094,28 +1072,8 @@ fn __action21<
         &__end0,
     );
     let __temp0 = (__start0, __temp0, __end0);
-    __action13(
-        __0,
-        __temp0,
-    )
-}
-
-#[allow(clippy::too_many_arguments, clippy::needless_lifetimes,
-    clippy::just_underscores_and_digits, clippy::clone_on_copy, clippy::unit_arg)]
-fn __action22<
->(
-    __lookbehind: &i64,
-    __lookahead: &i64,
-) -> Tree
-{
-    let __start0 = __lookbehind.clone();
-    let __end0 = __lookahead.clone();
-    let __temp0 = __action9(
-        &__start0,
-        &__end0,
-    );
-    let __temp0 = (__start0, __temp0, __end0);
     __action14(
+        __0,
         __temp0,
     )
 }
@@ -1147,32 +1105,6 @@ fn __action23<
 fn __action24<
 >(
     __0: (i64, Tok, i64),
-    __1: (i64, Tok, i64),
-    __2: (i64, Tree, i64),
-    __3: (i64, Tok, i64),
-) -> Tree
-{
-    let __start0 = __3.2.clone();
-    let __end0 = __3.2.clone();
-    let __temp0 = __action9(
-        &__start0,
-        &__end0,
-    );
-    let __temp0 = (__start0, __temp0, __end0);
-    __action16(
-        __0,
-        __1,
-        __2,
-        __3,
-        __temp0,
-    )
-}
-
-#[allow(clippy::too_many_arguments, clippy::needless_lifetimes,
-    clippy::just_underscores_and_digits, clippy::clone_on_copy, clippy::unit_arg)]
-fn __action25<
->(
-    __0: (i64, Tok, i64),
     __1: (i64, Tree, i64),
     __2: (i64, Tok, i64),
 ) -> Tree
@@ -1184,7 +1116,7 @@ fn __action25<
         &__end0,
     );
     let __temp0 = (__start0, __temp0, __end0);
-    __action17(
+    __action16(
         __0,
         __1,
         __2,
@@ -1194,19 +1126,39 @@ fn __action25<
 
 #[allow(clippy::too_many_arguments, clippy::needless_lifetimes,
     clippy::just_underscores_and_digits, clippy::clone_on_copy, clippy::unit_arg)]
-fn __action26<
+fn __action25<
 >(
-    __0: (i64, Tok, i64),
+    __0: (i64, Tree, i64),
     __1: (i64, Tok, i64),
     __2: (i64, Tree, i64),
-    __3: (i64, Tok, i64),
-    __4: (i64, Tree, i64),
-    __5: (i64, Tok, i64),
-    __6: (i64, Tree, i64),
+    __3: (i64, Tree, i64),
 ) -> Tree
 {
-    let __start0 = __6.2.clone();
-    let __end0 = __6.2.clone();
+    let __start0 = __3.2.clone();
+    let __end0 = __3.2.clone();
+    let __temp0 = __action9(
+        &__start0,
+        &__end0,
+    );
+    let __temp0 = (__start0, __temp0, __end0);
+    __action17(
+        __0,
+        __1,
+        __2,
+        __3,
+        __temp0,
+    )
+}
+
+#[allow(clippy::too_many_arguments, clippy::needless_lifetimes,
+    clippy::just_underscores_and_digits, clippy::clone_on_copy, clippy::unit_arg)]
+fn __action26<
+>(
+    __0: (i64, Tree, i64),
+) -> Tree
+{
+    let __start0 = __0.2.clone();
+    let __end0 = __0.2.clone();
     let __temp0 = __action9(
         &__start0,
         &__end0,
@@ -1214,12 +1166,6 @@ fn __action26<
     let __temp0 = (__start0, __temp0, __end0);
     __action18(
         __0,
-        __1,
-        __2,
-        __3,
-        __4,
-        __5,
-        __6,
         __temp0,
     )
 }
